@@ -296,6 +296,7 @@ def layout (cells : List Row) : Except PyExc Layout := do
   let unitCells : List Cell :=
     if isEmpty then [] else if transposed then (body.take nCol).map (fun l => getD0 l 1)
     else (cells.getD 3 []).take nCol
+  if unitCells.length < nCol then throw .valueError        -- unit row shorter than the name row
   if !unitCells.all Cell.isStr then throw .valueError
   let rows0 ← if transposed && !isEmpty then transposedRows ((body.take nCol).map (fun l => l.drop 2))
     else pure ((cells.drop 4).map (fun l => l.take nCol))
